@@ -572,14 +572,17 @@ func (sp *ServerPool) doHandle(stdctx stdcontext.Context, spCtx *serverPoolConte
 }
 
 func (sp *ServerPool) buildResponse(spCtx *serverPoolContext) (err error) {
-	body := readers.NewCallbackReader(spCtx.stdResp.Body)
-	spCtx.stdResp.Body = body
-
 	if sp.proxy.compression != nil {
 		if sp.proxy.compression.compress(spCtx.stdReq, spCtx.stdResp) {
 			spCtx.AddTag("gzip")
 		}
 	}
+
+	// Wrap the body after the compression has (possibly) replaced it:
+	// collectMetrics relies on the body being the CallbackReader when the
+	// response is a stream.
+	body := readers.NewCallbackReader(spCtx.stdResp.Body)
+	spCtx.stdResp.Body = body
 
 	resp, err := httpprot.NewResponse(spCtx.stdResp)
 	if err != nil {
